@@ -412,7 +412,8 @@ Section Stream.
   | OStop (id : N)
   | OSearch (id start maxr : N) (fs : fset)
   | OLookupIdx (id idx : N)
-  | OLookupTime (id t : N).
+  | OLookupTime (id t : N)
+  | OReject.   (* a command the dispatcher rejects (malformed parameters, unknown key, bad JSON, invalid request): "err: ..." *)
 
   Inductive event :=
   | EReplyNew (id : N)
@@ -420,7 +421,7 @@ Section Stream.
   | EReplyStop (id : N)
   | EReplySearch (id : N) (idxs : list N) (next : option N)
   | EReplyLookup (id : N) (pos : option N)
-  | EErr                                     (* "err: ..." (stream id not found) *)
+  | EErr                                     (* "err: ..." (stream id not found, or the command was rejected) *)
   | EFrame (f : frame).
 
   Fixpoint find_stream (id : N) (l : list sctx) : option sctx :=
@@ -491,6 +492,7 @@ Section Stream.
         | Some s => Ok (sv, [EReplyLookup id (Some (lookup_time (sv_all sv) s t))])
         | None => Ok (sv, [EErr])
         end
+    | OReject => Ok (sv, [EErr])     (* nothing but the error reply: ids, windows, sent ranges stay as they are *)
     end.
 
   Fixpoint run (sv : server) (ops : list op) : res (server * list event) :=
